@@ -31,8 +31,8 @@ def _synthetic_layouts():
              'codecs': 'avc1.64001f', 'bitrate': 1000, 'mimeType': 'video/mp4'}
         md = sum(durs)
         j['mediaDuration'] = md
-        # Representation.load(): start time of the last segment // (n - 1)
-        j['segment_duration'] = (start_time + md - durs[-1]) // (len(durs) - 1)
+        # nominal duration: mean of all segments but the last
+        j['segment_duration'] = (md - durs[-1]) // (len(durs) - 1)
         return j
     return {
         'syn_short_last': rep('syn_short_last', 1000, [4000, 4000, 4000, 4000, 1500]),
